@@ -8,7 +8,8 @@ import C05_gen
 LEAN_MODULES = ['C20'] + C05_gen.LEAN_MODULES
 
 MANIFEST = dict(
-    text="Proved in Lean for every timeline, quota and tick placement: the native limiter's logical-time execution (GroupBy routing + per-group WindowWhen/Take/MergeAll machine + in-place merge) "
+    text="Premise about the composition operators of the native limiter: MergeAll (behind MergeMap) is re-translated from the Go source on this run and proved to refine the model (RoProps/C05gen). "
+         "Proved in Lean for every timeline, quota and tick placement: the native limiter's logical-time execution (GroupBy routing + per-group WindowWhen/Take/MergeAll machine + in-place merge) "
          "equals the composition of the list models of its pieces; per key the output is the first n items of each window in order (run_perKey), a subsequence of the input (no duplication), "
          "keys independent, completion/error propagated; arithmetic corollary: a span of length L meets at most floor(L/w)+2 windows whatever the alignment, so at most n*(floor(L/w)+2) items of a key pass (quota_span). "
          "ulule: for every store oracle the output is the filter of the input by the store's answers, order kept, terminal propagated (ulule_filter, ulule_shape). "
